@@ -833,6 +833,16 @@ def check_consequence_dqn(case: dict, idx: int, default_config: bool = False, al
                 if len(srt) > 1 and srt[-1] - srt[-2] > 10 * TOL and int(act[pos]) != int(a0[0]):
                     fail("greedy-depends-on-batch", f"observation row {r} alone -> action {int(a0[0])}, inside batch {comp} -> {int(act[pos])}")
                     return fails, True
+        # a Dict observation lists its members in any key order (a dictionary is keyed by name)
+        if case["kind"] == "dict" and len(case["subs"]) > 1:
+            whole = _rows_obs(case, dtypes, list(range(R)), batched=True)
+            if isinstance(whole, dict):
+                q_a, _ = q_and_greedy(whole)
+                q_b, _ = q_and_greedy({k: whole[k] for k in reversed(list(whole))})
+                dq = float(np.max(np.abs(q_a - q_b)))
+                if dq > TOL:
+                    fail("depends-on-key-order", f"the same Dict observation with its keys listed in reverse order gives other values (max diff {dq:.3g})")
+                    return fails, True
     except Exception as ex:
         fail("batch-raises", f"single observations are evaluated, but a batch raises {type(ex).__name__}: {str(ex)[:200]}")
     return fails, True
@@ -929,6 +939,56 @@ def check_consequence_ma(seed: int, spaces_kind: str = "vector") -> Tuple[List[d
                 fail(algo, "depends-on-env-order", f"permuting environments {perm} does not permute the reports of {bad}")
         except Exception as ex:
             fail(algo, "raises", f"{type(ex).__name__}: {str(ex)[:200]}")
+    return fails, n
+
+
+def check_key_order(seed: int) -> Tuple[List[dict], int]:
+    """A Dict observation is keyed by name: the values DQN / the critic of PPO report must not depend on the order in which the
+    dictionary lists its members (two image members, two vector members; with and without the vector MLP)."""
+    from gymnasium import spaces
+
+    fails, n = [], 0
+    sp = spaces.Dict({"a": spaces.Box(0, 1, (3, 8, 8), np.float32), "b": spaces.Box(0, 1, (3, 8, 8), np.float32),
+                      "v": spaces.Box(-1, 1, (2,), np.float32), "w": spaces.Discrete(3)})
+    rng = np.random.RandomState(seed)
+    obs = {"a": rng.rand(3, 3, 8, 8).astype(np.float32), "b": rng.rand(3, 3, 8, 8).astype(np.float32),
+           "v": rng.uniform(-1, 1, (3, 2)).astype(np.float32), "w": rng.randint(0, 3, (3,))}
+    orders = [["a", "b", "v", "w"], ["w", "b", "v", "a"], ["b", "a", "w", "v"], ["v", "w", "b", "a"]]
+    for algo in ("dqn", "ppo"):
+        for vsm in (False, True):
+            torch.manual_seed(seed + 17)
+            nc = {"encoder_config": {"latent_dim": 8, "vector_space_mlp": vsm, "cnn_config": {"channel_size": [4], "kernel_size": [3], "stride_size": [1]}},
+                  "head_config": {"hidden_size": [8]}}
+            try:
+                with warnings.catch_warnings():
+                    warnings.simplefilter("ignore")
+                    if algo == "dqn":
+                        from agilerl.algorithms.dqn import DQN
+                        ag = DQN(sp, spaces.Discrete(3), net_config=nc)
+                    else:
+                        from agilerl.algorithms.ppo import PPO
+                        ag = PPO(sp, spaces.Discrete(3), net_config=nc, share_encoders=False)
+                ag.set_training_mode(False)
+            except Exception:                                    # noqa: BLE001
+                AGENT_STATS["unbuildable"] += 1
+                continue
+
+            def val(o):
+                with torch.no_grad(), warnings.catch_warnings():
+                    warnings.simplefilter("ignore")
+                    net = ag.actor if algo == "dqn" else ag.critic
+                    return net(ag.preprocess_observation(o)).detach().numpy().astype(np.float64)
+            ref = val({k: obs[k] for k in orders[0]})
+            for od in orders[1:]:
+                n += 1
+                got = val({k: obs[k] for k in od})
+                dq = float(np.max(np.abs(got - ref)))
+                if dq > TOL:
+                    fails.append({"sig": f"consequence:{algo}:key-order:dict:{'vector-mlp' if vsm else 'plain'}:depends-on-key-order",
+                                  "what": f"{algo.upper()} on Dict(a: image, b: image, v: Box(2), w: Discrete(3)): the same observation with its keys listed as {od} "
+                                          f"instead of {orders[0]} gives other values (max diff {dq:.3g})",
+                                  "replay": {"check": "key_order", "seed": seed}})
+                    break
     return fails, n
 
 
